@@ -397,3 +397,25 @@ PLANS["C07"] = dict(
         validate=dict(module="Trace_NotationRT", cfg=trace_cfg()),
     )],
 )
+
+# ------------------------------------------------------------------ C18
+PLANS["C18"] = dict(
+    level_text="The plugin's answer is modelled as the honest answer modified by a set of deviations; the implementation's checks are listed in "
+               "its order, each owning the deviations it must stop, and TLC checks that every non-empty set of rejecting deviations is stopped "
+               "and that the checks together own exactly the rejecting deviations; every deviation set of size <= 2 (3 in thorough) x envelope/raw "
+               "path x Sign/SignBlob x format x key spec is replayed against the real signer.PluginSigner with a scripted plugin using real keys, "
+               "and a returned signature is re-checked independently against the request.",
+    level_note="Trusted: TLC, notation-core-go envelope verification (used by the independent re-check), Go crypto. Annotations appended by the "
+               "plugin are accepted or refused (both are spec behaviours).",
+    rule="cases = deviation sets up to MaxDevs per path/api/format/key spec; non-trivial = non-empty deviation set",
+    exhaustive=True,
+    phases=[dict(
+        name="answers",
+        gen=dict(module="MC_PluginSigner_C18",
+                 cfg=lambda tier, seed: mc_cfg(["Inv_C18", "Inv_Emit"], consts=["MaxDevs = 3" if tier == "thorough" else "MaxDevs = 2",
+                                               'Keys = {"EC-256", "EC-384", "EC-521", "RSA-2048", "RSA-3072", "RSA-4096"}' if tier == "thorough" else 'Keys = {"EC-256", "RSA-2048"}']),
+                 select=take_all),
+        drive=dict(driver="pluginsigner"),
+        validate=dict(module="Trace_PluginSigner", cfg=trace_cfg()),
+    )],
+)
